@@ -282,6 +282,24 @@ def r14_3(ctx, rc):
                                     c2.args[0], g, cn2))) and \
                             _derives_from_param(ctx, H, a, cn):
                         ok = True
+    # every directory of the argument is considered: the loop over it is
+    # never left early (a reserved ancestor must not hide the deeper,
+    # unreserved directories the failed call created)
+    for lp in ast.walk(H.node):
+        if isinstance(lp, ast.For) and isinstance(lp.iter, ast.Name) and \
+                lp.iter.id in H.params:
+            leaves = [n for n in ast.walk(lp)
+                      if isinstance(n, (ast.Break, ast.Return))]
+            k2 = '%s walks its whole argument' % handoff
+            if leaves:
+                rc.violation(
+                    'handoff-loop-left | ' + handoff,
+                    '%s leaves the loop over the directories it is given '
+                    'early: the remaining directories are neither recorded '
+                    'for removal nor virtually removed' % handoff,
+                    prog.loc(H, leaves[0]), key=k2)
+            else:
+                rc.ok({'loop_over': lp.iter.id}, key=k2)
     key = '%s records its argument in %s' % (handoff, gattr)
     if ok:
         rc.ok({'set': gattr}, key=key)
@@ -375,6 +393,47 @@ def r14_4(ctx, rc):
         else:
             rc.ok({'move': callee_name(m), 'registered_in': '_backups'},
                   key=key)
+    # a failure of the move itself surfaces: the only outcome that may be
+    # turned into "there was no file" is exactly FileNotFoundError
+    prog = ctx.prog
+    for f0 in [F] + [g for g in prog.funcs.values()
+                     if g.cls == F.cls and not g.is_public and any(
+                         isinstance(h, Func) and h is g
+                         for c in prog.calls_in(F)
+                         for h in prog.resolve_call(c, F))]:
+        for call in prog.calls_in(f0):
+            if not ({'os.rename', 'os.replace', 'shutil.move'} &
+                    set(x for x in prog.resolve_call(call, f0)
+                        if isinstance(x, str))):
+                continue
+            node = call
+            while node is not None and node is not f0.node:
+                par = prog.parent(node)
+                if isinstance(par, ast.Try) and any(
+                        node is b or any(node is y for y in ast.walk(b))
+                        for b in par.body):
+                    for h in par.handlers:
+                        names = ['BaseException'] if h.type is None else [
+                            ast.unparse(t).split('.')[-1] for t in (
+                                h.type.elts if isinstance(h.type, ast.Tuple)
+                                else [h.type])]
+                        key = 'handler %s around the move in %s' % (
+                            '/'.join(names), f0.qualname)
+                        reraises = bool(h.body) and isinstance(
+                            h.body[-1], ast.Raise)
+                        if names == ['FileNotFoundError'] or reraises:
+                            rc.ok({'handler': key}, key=key)
+                        else:
+                            rc.violation(
+                                'move-failure-swallowed | ' + f0.qualname,
+                                'a handler for %s around the move does not '
+                                'always re-raise: a genuine failure to move '
+                                'the file aside (PermissionError, EXDEV, '
+                                '...) is reported as "the file did not '
+                                'exist", the build overwrites the file in '
+                                'place and rollback cannot restore it' %
+                                '/'.join(names), prog.loc(f0, h), key=key)
+                node = par
     # nothing may fail between reserving the slot and the move except the
     # creation of the backup directory (nothing moved yet)
     pre = sg.reach([sg.entry], avoid=lambda x: x.kind == 'leaf' and
